@@ -5,10 +5,12 @@ PROVED (coq/props/C18.v, every depth >= 1, every idx <= depth, every buffer cont
   after Fixed's wrap; interpolate/next_source_frame/reset return Ok), and over the reals with the true
   sin, cos, pi: x = 0 reads exactly frames[idx]; through the Converter at ratio exactly 1 output j is
   source frame j - depth (zero padding before); interpolate is linear in the buffered frames; reset
-  returns to the initial silent state.
+  returns to the initial silent state; on a primed constant buffer (c, ..., c) interpolate returns c times the
+  sum of the 2*depth Hann-windowed sinc weights (any depth), and for depth 4..16 that sum is within 1/100 of 1 at
+  every fractional position (Interval, one lemma per depth): constant input reproduced within 1 %.
 TESTED numerically here (not proved; they are facts about glibc's sin/cos and about rounding):
   the 1e-12 bound of the ratio-1 clause, linearity within rounding, finiteness, constant input within 1 %
-  once the buffer is full for depth >= 4.
+  once the buffer is full for depth > 16 and, for every depth >= 4, in the rounded evaluation with libm.
 TIE: the Coq model (Dsp/Sinc.v) is run inside coqc on IEEE binary64 (Dsp/SincRun.v) with sin/cos taken
   from the implementation as data (the harness answers the oracle queries with f64::sin/f64::cos) and
   compared bit for bit with the crate on small cases; a second, literal python transcription of the model
@@ -21,9 +23,9 @@ import c18_model as M
 
 PROP = "C18"
 META = dict(
-    technique="Coq proof over R (true sin/cos/pi) + structural safety proof for every depth; coqc-evaluated IEEE model with libm values passed in as data vs crate, bit for bit; numeric verdicts for the rounding-dependent clauses",
-    text="Machine-checked (Coq 8.16.1): for every depth >= 1 and every reachable index the kernel half-width is min(idx+1, depth), the unsigned subtraction nl-n cannot underflow, every tap index is in range after the ring buffer's wrap, and over the reals with the true sin/cos/pi the interpolator at x = 0 returns exactly frames[idx], a converter at ratio 1 outputs source frame j-depth (zeros before), interpolation is linear in the buffered frames and reset restores the initial silent state. The 1e-12 bound, linearity within rounding, finiteness and the 1 % constant-reproduction clause depend on glibc's sin/cos and on rounding: they are TESTED (depth 1..64, fractional positions, f64/f32/i16, mono/stereo, priming phase and after reset) against the real crate.",
-    note="Trusted: Coq kernel; the hand-written model validated by running it in coqc with the implementation's sin/cos values as data and comparing bit for bit; lib/c18_model.py (second transcription, compared bit for bit on all cases); Base/Float.v validated against rustc by floatbase. Axioms: the 4 standard-library axioms of Coq's classical reals (theorems over R only). Known finding K5: integer frames overflow in add_amp when the kernel overshoots.",
+    technique="Coq proof over R (true sin/cos/pi; Interval for the 1 % constant clause, depths 4..16) + structural safety proof for every depth; coqc-evaluated IEEE model with libm values passed in as data vs crate, bit for bit; numeric verdicts for the rounding-dependent clauses",
+    text="Machine-checked (Coq 8.16.1): for every depth >= 1 and every reachable index the kernel half-width is min(idx+1, depth), the unsigned subtraction nl-n cannot underflow, every tap index is in range after the ring buffer's wrap, and over the reals with the true sin/cos/pi the interpolator at x = 0 returns exactly frames[idx], a converter at ratio 1 outputs source frame j-depth (zeros before), interpolation is linear in the buffered frames, reset restores the initial silent state, and (exact reals, Interval) a constant input is reproduced within 1 % at every fractional position once the buffer is primed for depth 4..16 (the model's interpolate on a constant buffer is proved equal to c times the sum of the 2*depth Hann-windowed sinc weights, for any depth; that sum is bounded per depth). The 1e-12 bound, linearity within rounding, finiteness, and the 1 % clause for depth > 16 and for the rounded evaluation depend on glibc's sin/cos and on rounding: they are TESTED (depth 1..64, fractional positions, f64/f32/i16, mono/stereo, priming phase and after reset) against the real crate.",
+    note="Trusted: Coq kernel; the hand-written model validated by running it in coqc with the implementation's sin/cos values as data and comparing bit for bit; lib/c18_model.py (second transcription, compared bit for bit on all cases); Base/Float.v validated against rustc by floatbase. Axioms: the 4 standard-library axioms of Coq's classical reals (theorems over R only), and for c18_constant_1pct_small_depths the primitive 63-bit integer operations with their specification axioms used by Interval (vm_compute; no primitive floats: i_prec 40). Known finding K5: integer frames overflow in add_amp when the kernel overshoots.",
     design="6/C18")
 HEADER = "From Dasp Require Import Dsp.SincRun Dsp.SincRunGen."
 CHECK = "check_all"
@@ -689,7 +691,7 @@ def finish(rep, info, stats, samples, counts):
         "obligations": max(1, len(th)), "discharged": len(th) if info.get("coq_ok") else 0,
         "checker_cmd": "make -f Makefile.coq props/C18.vo (coqc 8.16.1, full .vo) + Print Assumptions audit",
         "trusted_base": F.TRUSTED_COMMON + [
-            "axioms: the standard-library axioms of Coq's classical reals (allow-list AX_REALS) for the theorems over R; the structural theorems are closed",
+            "axioms: the standard-library axioms of Coq's classical reals (allow-list AX_REALS) for the theorems over R; the structural theorems are closed; c18_constant_1pct_small_depths additionally uses Interval 4.6.1 (bisection, Taylor models, 40-bit software floats over Coq's primitive 63-bit integers and their specification axioms, evaluated by vm_compute)",
             "modelled, not verified: usize as nat (no index near 2^64), frames as lists of equal length, Fixed ring buffer as in C06",
             "libm sin/cos are not modelled: the crate's own values are passed to the model as data; lib/c18_model.py is a second transcription compared bit for bit",
             "Base/Float.v (Flocq BinarySingleNaN) validated against rustc by lib/floatbase.py in this run",
@@ -697,18 +699,20 @@ def finish(rep, info, stats, samples, counts):
         "theorems": th, "axioms_reported": info.get("axioms", []),
         "proved_clauses": ["max_depth = min(idx+1, depth)", "nl - n does not underflow", "tap indices in range / no panic, no UB",
                            "x = 0 returns frames[idx] (R, true sin/cos/pi)", "ratio 1: output j = source j - depth, zeros before (R)",
-                           "linearity in the buffered frames (R)", "reset = initial silent state"],
+                           "linearity in the buffered frames (R)", "reset = initial silent state",
+                           "primed constant buffer: interpolate = c * (sum of the 2*depth weights), any depth, any x (R)",
+                           "constant input within 1 % once primed, every x in [0,1), depth 4..16 (R, true sin/cos/pi; Interval)"],
         "tested_clauses": ["ratio-1 error <= 1e-12 * peak with glibc sin/cos and rounded PI", "linearity within rounding (f64 1e-12*scale, f32 (8 taps+4) ulp24*scale, i16 (1+|a|+|b|) LSB per tap)",
-                           "finite output for finite input (|s| <= 1e300)", "constant input within 1 % once the buffer is full, depth >= 4 (integers: + 1 LSB per tap truncation)",
+                           "finite output for finite input (|s| <= 1e300)", "constant input within 1 % once the buffer is full, depth >= 4 in the crate's rounded evaluation with libm (integers: + 1 LSB per tap truncation); proved on exact reals for depth 4..16 only",
                            "all fourteen sample formats (i8 i16 I24 i32 I48 i64 u8 u16 U24 u32 U48 u64 f32 f64), mono and stereo: ratio 1 reproduces the source delayed by depth BIT-EXACTLY for integer formats <= 48 bits including the rails MIN and MAX (64-bit integers and floats: 1e-12 of the peak amplitude; 64-bit rails fall in K5)",
                            "float streams with tiny (f32 peak 2^-130..2^-120, f64 subnormal) and huge (1e38 / 1e300) peaks at ratio 1 relative to their peak; scaling H = k F with k in {2^-126, 2^-100, 2^100} commutes with interpolation within rounding"],
         "evaluations": counts.get("n", 0), "distinct_nontrivial": counts.get("nontriv", 0),
         "rule": "non-trivial = depth >= 2 and an interpolation at a fractional position (x != 0) while 0 < idx < depth (priming phase) or after a reset; distinct harness lines counted",
         "samples": samples, "input_distribution": stats, "disagreements": counts.get("bad", 0),
-        "explanation": "theorems: structural safety for every depth and exact-arithmetic transparency/linearity/reset; tie: Coq model run in coqc on binary64 with the crate's sin/cos values, compared bit for bit (small cases) + python transcription compared bit for bit (all depths); rounding-dependent clauses tested numerically",
+        "explanation": "theorems: structural safety for every depth and exact-arithmetic transparency/linearity/reset, 1 % constant reproduction for depth 4..16 on exact reals; tie: Coq model run in coqc on binary64 with the crate's sin/cos values, compared bit for bit (small cases) + python transcription compared bit for bit (all depths); rounding-dependent clauses tested numerically",
     }
     return rep.finish("proof", cov, ["usize modelled as unbounded nat; frames as lists; the Fixed ring-buffer model of C06 is reused",
-                                    "the 1e-12 / 1 % / finiteness / within-rounding clauses are tested, not proved (they depend on glibc's sin/cos)",
+                                    "the 1e-12 / finiteness / within-rounding clauses, and the 1 % clause for depth > 16 or under rounding, are tested, not proved (they depend on glibc's sin/cos)",
                                     "integer formats: amplitudes <= 8000 for the verdict clauses; full-scale integer input is known finding K5"])
 
 
